@@ -8,6 +8,7 @@ import render
 VERIF = os.path.dirname(os.path.dirname(os.path.abspath(__file__)))
 REPO = os.environ.get('VERIF_REPO', '/repo')
 SPEC = os.path.join(VERIF, 'spec')
+OUTBASE = os.environ.get('VERIF_OUT', VERIF)   # evidence/ and replays/ go here (mutant runs redirect it)
 NCPU = os.cpu_count() or 4
 
 GOENV = dict(os.environ, GOFLAGS='-mod=mod', GOPROXY='off', GOSUMDB='off', GOTOOLCHAIN='local',
@@ -419,15 +420,15 @@ class Result:
             # level-specific keys absent: fall back on the generic ones (schema: generic_fallback)
             for k in ('states', 'transitions'):
                 self.cov.pop(k, None)
-        os.makedirs(os.path.join(VERIF, 'evidence'), exist_ok=True)
-        with open(os.path.join(VERIF, 'evidence', self.pid + '.json'), 'w') as f:
+        os.makedirs(os.path.join(OUTBASE, 'evidence'), exist_ok=True)
+        with open(os.path.join(OUTBASE, 'evidence', self.pid + '.json'), 'w') as f:
             json.dump(ev, f, indent=1, sort_keys=True)
         return ev
 
 
 def replay_dir(pid, key):
     h = hashlib.sha1(key.encode()).hexdigest()[:10]
-    d = os.path.join(VERIF, 'replays', pid, h)
+    d = os.path.join(OUTBASE, 'replays', pid, h)
     os.makedirs(d, exist_ok=True)
     return d
 
